@@ -137,9 +137,124 @@ def ceval(e, env):
                     return d.get(k, dflt)
                 except TypeError:
                     raise Unknown('get')
+        if isinstance(fn, ast.Attribute) and fn.attr in ('items', 'keys', 'values') and not e.args and not e.keywords:
+            d = ceval(fn.value, env)
+            if isinstance(d, dict):
+                return tuple(getattr(d, fn.attr)())
+        if isinstance(fn, ast.Name) and fn.id in (env.get('__funcs__') or {}) and not any(
+                isinstance(a, ast.Starred) for a in e.args) and all(k.arg for k in e.keywords):
+            # a module-level helper of the package, interpreted on concrete arguments
+            node, consts = env['__funcs__'][fn.id]
+            params = [a.arg for a in node.args.args]
+            if node.args.vararg or node.args.kwarg or node.args.kwonlyargs or len(e.args) > len(params):
+                raise Unknown('call')
+            loc = {'__funcs__': env['__funcs__'], '__depth__': env.get('__depth__', 0) + 1}
+            if loc['__depth__'] > 4:
+                raise Unknown('depth')
+            loc.update(consts)
+            for p_, a_ in zip(params, e.args):
+                loc[p_] = ceval(a_, env)
+            for k in e.keywords:
+                if k.arg not in params or k.arg in loc and k.arg in params[:len(e.args)]:
+                    raise Unknown('call')
+                loc[k.arg] = ceval(k.value, env)
+            dflt = dict(zip(params[len(params) - len(node.args.defaults):], node.args.defaults))
+            for p_ in params:
+                if p_ not in loc:
+                    if p_ not in dflt:
+                        raise Unknown('call')
+                    loc[p_] = ceval(dflt[p_], {})
+            return cexec(node.body, loc)
         if isinstance(fn, ast.Attribute) and fn.attr in ('lower', 'upper', 'strip') and not e.args:
             v = ceval(fn.value, env)
             if isinstance(v, str):
                 return getattr(v, fn.attr)()
         raise Unknown('call')
     raise Unknown(type(e).__name__)
+
+
+class _Return(Exception):
+    def __init__(self, value):
+        self.value = value
+
+
+def cexec(body, env):
+    """Interpret a straight-forward function body (assignments to locals, if, for over a concrete
+    sequence, return; logging and docstrings ignored) on concrete values.  Returns the returned
+    value (None when the body falls off its end); raises Unknown for anything else."""
+    try:
+        _block(body, env, [0])
+    except _Return as r:
+        return r.value
+    return None
+
+
+def _assign(t, v, env):
+    if isinstance(t, ast.Name):
+        env[t.id] = v
+    elif isinstance(t, (ast.Tuple, ast.List)) and isinstance(v, (tuple, list)) and len(v) == len(t.elts):
+        for x, y in zip(t.elts, v):
+            _assign(x, y, env)
+    else:
+        raise Unknown('target')
+
+
+def _block(stmts, env, fuel):
+    for st in stmts:
+        fuel[0] += 1
+        if fuel[0] > 2000:
+            raise Unknown('fuel')
+        if isinstance(st, ast.Pass):
+            continue
+        if isinstance(st, ast.Expr):
+            v = st.value
+            if isinstance(v, ast.Constant):
+                continue
+            if isinstance(v, ast.Call) and isinstance(v.func, ast.Attribute) and v.func.attr in (
+                    'debug', 'info', 'warning', 'error', 'critical', 'exception', 'log'):
+                continue
+            raise Unknown('expr')
+        if isinstance(st, ast.Return):
+            raise _Return(ceval(st.value, env) if st.value is not None else None)
+        if isinstance(st, ast.Assign) and len(st.targets) == 1:
+            _assign(st.targets[0], ceval(st.value, env), env)
+            continue
+        if isinstance(st, ast.AnnAssign) and st.value is not None:
+            _assign(st.target, ceval(st.value, env), env)
+            continue
+        if isinstance(st, ast.If):
+            _block(st.body if ceval(st.test, env) else st.orelse, env, fuel)
+            continue
+        if isinstance(st, ast.For) and not st.orelse:
+            seq = ceval(st.iter, env)
+            if isinstance(seq, dict):
+                seq = tuple(seq)
+            if not isinstance(seq, (tuple, list)):
+                raise Unknown('iter')
+            for x in seq:
+                _assign(st.target, x, env)
+                _block(st.body, env, fuel)       # (break / continue are not supported: Unknown below)
+            continue
+        raise Unknown(type(st).__name__)
+
+
+def package_helpers(repo):
+    """{name: (FunctionDef, literal module constants)} for module-level functions of the package (unique names)"""
+    out, dup = {}, set()
+    for f in repo.all_functions(include_inlined=True):
+        if f.cls is not None:
+            continue
+        if f.name in out:
+            dup.add(f.name)
+            continue
+        consts = {}
+        for st in f.module.tree.body:
+            if isinstance(st, ast.Assign) and len(st.targets) == 1 and isinstance(st.targets[0], ast.Name):
+                try:
+                    consts[st.targets[0].id] = ceval(st.value, {})
+                except Unknown:
+                    pass
+        out[f.name] = (f.node, consts)
+    for k in dup:
+        out.pop(k, None)
+    return out
